@@ -239,7 +239,27 @@ func runC11(w *World, tier string) (bool, interface{}) {
 		}
 	}
 	armed, died := false, false
+	victimRestart := w.Tape.Bool(1, 3, "victimNodeRestarts")
+	victimRestarted := false
 	c.L.AfterStep = func() {
+		if victimRestart && !victimRestarted {
+			// the victim's hot node is stopped and started again (cleanly, between two
+			// ticks) while the operation that carries the bad deal waits in its pool
+			nd := w.Nodes[V]
+			if nd.inc != nil && nd.inc.Poller.Parked() == nil {
+				for _, o := range nd.PendingOps() {
+					if string(o.Type) == string(dpf.StateDkgResponsesAwaitConfirmations) {
+						victimRestarted = true
+						w.stopNode(nd, true)
+						if err := w.RestartNode(nd); err != nil {
+							w.Fail("C11", "restart-failed", err.Error())
+						}
+						w.Stats.Fault("clean-restart")
+						break
+					}
+				}
+			}
+		}
 		if crashNode < 0 {
 			return
 		}
